@@ -27,6 +27,20 @@ def grid(tier):
                     out.append({'mode': 'client', 'class': 'deadline', 'transport': 'h2', 'shim': {'cap': 65536, 'rq': 65536, 'wq': 65536, 'pend': 0},
                                 'shape': 'unary', 'server': server, 'client': client, 'req': {'meta': [], 'msgs': [[1]]},
                                 'script': {'init_meta': [], 'msgs': [[2]], 'end': {'ok': True}, 'fail_before': False, 'no_compress': False, 'latency_ms': L}})
+    # deadline x call shape: the handler of every shape takes L before it answers (the streaming shapes then stream two messages)
+    for shape in ('cstream', 'sstream', 'bidi'):
+        for tc, tsrv in ((1000, None), (None, 1000), (2000, 1000), (None, None)):
+            for L in ([0, 500, 1500] if tier != 'thorough' else lat):
+                client = {'send': '', 'accept': [], 'max_dec': -1, 'max_enc': -1}
+                server = {'send': [], 'accept': [], 'max_dec': -1, 'max_enc': -1}
+                if tc is not None:
+                    client['timeout_ms'] = tc
+                if tsrv is not None:
+                    server['timeout_ms'] = tsrv
+                single = shape == 'cstream'
+                out.append({'mode': 'client', 'class': 'deadline_shapes', 'transport': 'h2', 'shim': {'cap': 65536, 'rq': 65536, 'wq': 65536, 'pend': 0},
+                            'shape': shape, 'server': server, 'client': client, 'req': {'meta': [], 'msgs': [[1]] if shape == 'sstream' else [[1], [2]]},
+                            'script': {'init_meta': [], 'msgs': [[2]] if single else [[2], [3]], 'end': {'ok': True}, 'fail_before': False, 'no_compress': False, 'latency_ms': L}})
     # a malformed grpc-timeout is ignored: the configured timeouts still apply (header bytes injected below the client API)
     for raw in (b'5x', b'123456789n', b'soonS', b'', b'1 S', b'-1S', b'1s'):
         for tsrv in [None, 1000]:
